@@ -436,6 +436,9 @@ func (m *mdl) do(o *op) string {
 			for i := range o.Sub {
 				sb.WriteString(m.batchOp(b, &o.Sub[i]) + ";")
 			}
+			if o.Boom {
+				return sb.String() + "ret=panic"
+			}
 			if o.Fail {
 				return sb.String() + "ret=cberr"
 			}
